@@ -601,6 +601,8 @@ impl<A: Send + 'static> Cell<A> {
             node1.add_update_dependencies(vec![
                 Dep::new(node1.gc_node.clone()),
                 Dep::new(node2.gc_node.clone()),
+                // the update closure below captures cca
+                cca.to_dep(),
             ]);
             {
                 let mut update = node1.data.update.write();
